@@ -54,7 +54,7 @@ def gen_client(wd, outdir, only):
             continue
         cfg = cluster.mc_client_cfg(wd, name, CLIENT, dev, invs, hist=True)
         tj = os.path.join(wd, name + ".trace.json")
-        rc, out, dt = dv.tlc("MC_client", cfg, wd, workers=8, extra=["-dumpTrace", "json", tj], timeout=2400)
+        rc, out, dt = dv.tlc("MC_client", cfg, wd, workers=8, extra=["-dumpTrace", "json", tj], timeout=1200)
         if not os.path.exists(tj):
             print(name, "no counterexample (%.0fs)" % dt, dv.tlc_stats(out))
             continue
